@@ -193,6 +193,80 @@ def wellFormed (cfg : Config) : Bool :=
     && (nodeWrites.isEmpty || cfg.stack.any (fun i => i.name == cfg.dbName))
     && (nodeWrites.all (fun e => cfg.skipCycles.contains e.rc) || cfg.maxIters ≥ 1)
 
+/-! ### `interfaces.TightCoupler` bookkeeping and the coupling loop with the couplers' own state
+
+The `conv` field of `Config` is an arbitrary predicate. In the code the verdict comes from a
+`TightCoupler` object that every coupled interface carries: it has ITS OWN `maxIters` (not necessarily
+the run setting `tightCouplingMaxNumIters`), an iteration counter and the previous value. The
+definitions below transcribe that bookkeeping for scalar values. -/
+
+/-- `TightCoupler`: `tolerance`, its own `maxIters`, `_numIters`, `_previousIterationValue` -/
+structure Coupler where
+  tol : Rat
+  maxIters : Nat
+  numIters : Nat
+  prev : Option Rat
+  deriving DecidableEq, Repr, Inhabited
+
+/-- `abs(val - previous)` -/
+def absDiff (a b : Rat) : Rat := if a - b < 0 then b - a else a - b
+
+/-- `TightCoupler.storePreviousIterationValue(val)` -/
+def Coupler.store (k : Coupler) (v : Rat) : Coupler := { k with prev := some v }
+
+/-- `TightCoupler.isConverged(val)`: `none` = ValueError (no previous value stored); otherwise
+(converged, the "maximum number of iterations reached" warning was issued, the coupler afterwards):
+`converged = eps < tolerance; if converged: _numIters = 0 else: _numIters += 1; if _numIters == maxIters: warn, _numIters = 0` -/
+def Coupler.isConverged (k : Coupler) (v : Rat) : Option (Bool × Bool × Coupler) :=
+  match k.prev with
+  | none => none
+  | some p =>
+    if absDiff v p < k.tol then some (true, false, { k with numIters := 0 })
+    else if k.numIters + 1 = k.maxIters then some (false, true, { k with numIters := 0 })
+    else some (false, false, { k with numIters := k.numIters + 1 })
+
+/-- first loop of `interactAllCoupled`: every active interface with a coupler stores
+`getTightCouplingValue()` before the round (`vb` : interface name → value) -/
+def storeAll (vb : Nat → Rat) (ks : List (Nat × Coupler)) : List (Nat × Coupler) :=
+  ks.map (fun p => (p.1, p.2.store (vb p.1)))
+
+/-- `_checkTightCouplingConvergence`: EVERY coupler is asked (a list is filled, no short circuit), then
+`all(converged)`; returns (all converged, number of warnings, couplers afterwards); `none` = raises -/
+def checkAll (va : Nat → Rat) : List (Nat × Coupler) → Option (Bool × Nat × List (Nat × Coupler))
+  | [] => some (true, 0, [])
+  | p :: rest =>
+    match p.2.isConverged (va p.1) with
+    | none => none
+    | some r =>
+      match checkAll va rest with
+      | none => none
+      | some rs => some (r.1 && rs.1, (if r.2.1 then 1 else 0) + rs.2.1, (p.1, r.2.2) :: rs.2.2)
+
+/-- `interactAllCoupled(coupledIteration)` for the couplers `ks` of the active interfaces (stack order):
+store the values before, (the hooks run), ask every coupler with the values after -/
+def interactAllCoupledS (vb va : Nat → Rat) (ks : List (Nat × Coupler)) : Option (Bool × Nat × List (Nat × Coupler)) :=
+  checkAll va (storeAll vb ks)
+
+/-- the `for coupledIteration in range(cs["tightCouplingMaxNumIters"])` loop of `_performTightCoupling`
+with the couplers' state threaded through (first argument: iterations left; `vb n it` / `va n it` =
+value of interface `n` before / after round `it`): (rounds run, warnings issued by the couplers
+themselves, couplers afterwards). The loop bound is the run SETTING; a coupler's own `maxIters` is
+only read inside `isConverged`. -/
+def coupledLoopS (vb va : Nat → Nat → Rat) : Nat → Nat → List (Nat × Coupler) → Option (Nat × Nat × List (Nat × Coupler))
+  | 0, _, ks => some (0, 0, ks)
+  | left + 1, it, ks =>
+    match interactAllCoupledS (fun n => vb n it) (fun n => va n it) ks with
+    | none => none
+    | some r =>
+      if r.1 then some (1, r.2.1, r.2.2)
+      else match coupledLoopS vb va left (it + 1) r.2.2 with
+        | none => none
+        | some q => some (q.1 + 1, r.2.1 + q.2.1, q.2.2)
+
+/-- the verdict of one coupler in round `it`, as a `conv`-style predicate: |after − before| < tolerance -/
+def verdict (vb va : Nat → Nat → Rat) (p : Nat × Coupler) (it : Nat) : Bool :=
+  decide (absDiff (va p.1 it) (vb p.1 it) < p.2.tol)
+
 /-! ### node arithmetic (armi/utils/__init__.py) -/
 
 /-- `getNodesPerCycle` -/
@@ -269,6 +343,26 @@ def powerFractionsSimple (pfs : Option (List Rat)) (nCycles burnSteps : Nat) : L
 def stepLengthsSimple (cycleLengths avail : List Rat) (burnSteps : Nat) : List (List Rat) :=
   if burnSteps = 0 then [[]]
   else (List.zipWith (· * ·) cycleLengths avail).map (fun l => List.replicate burnSteps (l / burnSteps))
+
+/-- one entry of a list in MCNP repeat notation: a number, or `"nR"` = the previous value n more times -/
+inductive RItem
+  | val (v : Rat)
+  | rep (n : Nat)
+  deriving DecidableEq, Repr
+
+/-- the loop of `utils.mathematics.expandRepeatedFloats` (`acc` = `nonRepeatList`);
+`none` = IndexError (`nonRepeatList[-1]` of an empty list: a repeat with nothing before it, also for `"0R"`) -/
+def expandLoop : List RItem → List Rat → Option (List Rat)
+  | [], acc => some acc
+  | .val v :: rest, acc => expandLoop rest (acc ++ [v])
+  | .rep n :: rest, acc =>
+    match acc.getLast? with
+    | none => none
+    | some l => expandLoop rest (acc ++ List.replicate n l)
+
+/-- `expandRepeatedFloats(repeatedList)`: the `step days`, `power fractions`, `availabilityFactors`, `cycleLengths`,
+`powerFractions` inputs all go through it -/
+def expandRepeated (l : List RItem) : Option (List Rat) := expandLoop l []
 
 /-- one cycle of the detailed `cycles` input -/
 inductive CycleSpec
